@@ -694,6 +694,14 @@ _process_request_(struct qb_ipcs_connection *c, int32_t ms_timeout)
 			    c->description);
 		res = -ESHUTDOWN;
 		goto cleanup;
+	} else if (size < (ssize_t)sizeof(struct qb_ipc_request_header) ||
+		   hdr->size < (int32_t)sizeof(struct qb_ipc_request_header) ||
+		   hdr->size > size) {
+		/* the length field disagrees with what was actually received */
+		qb_util_log(LOG_DEBUG, "malformed request from client (%s)",
+			    c->description);
+		res = -EBADMSG;
+		goto cleanup;
 	} else {
 		c->stats.requests++;
 		res = c->service->serv_fns.msg_process(c, hdr, hdr->size);
